@@ -268,7 +268,8 @@ func (b *Batch) runQuiet(sp driver.Spec) (res *driver.Result) {
 			res = nil
 		}
 	}()
-	return b.runWith(sp, 90*time.Second, false)
+	res, _ = b.runWith(sp, 90*time.Second, false)
+	return res
 }
 
 var _ = ev.Root
